@@ -1077,3 +1077,41 @@ def solve_precision(tier="quick", seed=0, only=None):
             seen.add(f["label"])
             uniq.append(f)
     return result(cases, uniq, f"single precision: problems {list(D)} x step solvers x Newton types")
+
+
+@native("native.integration.kkt", ["C01"])
+def integration_kkt(tier="quick", seed=0, only=None):
+    """bounded: the flow-integration solver (not under contract: SciPy's BDF integrator and event root finding sit
+    between its gate and the result) - whenever it returns Optimal, the independent dense KKT oracle of the user's
+    problem must hold.  Runs that end in one of its internal assertions are counted, not judged (they return no
+    Optimal result)."""
+    use_repo()
+    from pygradflow.integration.integration_solver import IntegrationSolver
+    from pygradflow.status import SolverStatus
+
+    S = scenarios()
+    failures, cases, optimal, crashed = [], 0, 0, 0
+    variants = [dict(), dict(opt_tol=1e-4)] if tier == "quick" else [dict(), dict(opt_tol=1e-4), dict(opt_tol=1e-8), dict(rho=10.0)]
+    for name, (mk, x0, y0) in S.items():
+        for vi, kw in enumerate(variants):
+            inp = dict(scenario=name, variant=vi)
+            if only is not None and only != inp:
+                continue
+            problem = mk()
+            params = mk_params(iteration_limit=200, **kw)
+            cases += 1
+            try:
+                res = IntegrationSolver(problem, params).solve(x0, y0)
+            except Exception:  # noqa  (internal assertion / root finder: no result, nothing to judge for C01)
+                crashed += 1
+                continue
+            if res.status == SolverStatus.Optimal:
+                optimal += 1
+                for lab, data in kkt_failures(problem, res, params):
+                    failures.append(dict(label="C01:integration_solver:optimal_violates_" + lab, input=inp, observed=repr(data)[:200]))
+    seen, uniq = set(), []
+    for f in failures:
+        if f["label"] not in seen:
+            seen.add(f["label"])
+            uniq.append(f)
+    return result(cases, uniq, f"IntegrationSolver on {list(S)} x {len(variants)} parameter variants: {optimal} Optimal results judged, {crashed} runs ended in an internal error (not judged)")
